@@ -57,6 +57,17 @@ def name_reuse(names=("v", "x0", "a0", "x")):
             # outer binder: clause variable
             out.append({'name': f"reuse/clause/{ik}/op_r/{v}",
                         'src': prog(f"Cons(a, Nil).case[i64] {{ Nil => 0, Cons({v}, rest) => {body} }}")})
+        # outer label (falling through) / covariable parameter, inner let of the same name whose bound term or body contains a
+        # conditional in non-tail position: the shared continuation has a variable and a covariable of one name free
+        out.append({'name': f"reuse/label/let-if-bound/{v}",
+                    'src': prog(f"label {v} {{ let {v}: i64 = (if a == 0 {{ 1 }} else {{ b }}); {v} + 10 }}")})
+        out.append({'name': f"reuse/label/let-if-body/{v}",
+                    'src': prog(f"label {v} {{ let {v}: i64 = a + 1; (if {v} == b {{ 1 }} else {{ {v} }}) * 3 }}")})
+        out.append({'name': f"reuse/label/let-case-body/{v}",
+                    'src': prog(f"label {v} {{ let {v}: i64 = a + 1; (Cons(b, Nil).case[i64] {{ Nil => 0, Cons(h, t) => h + {v} }}) - {v} }}")})
+        out.append({'name': f"reuse/cnsparam/let-if/{v}",
+                    'src': prog(f"label out {{ f(a, out) + 1000 }}",
+                                extra_defs=f"def f(x: i64, {v}: cns i64): i64 {{ let r: i64 = (let {v}: i64 = (if x == 0 {{ 1 }} else {{ 2 }}); {v} + 100); if r == 101 {{ goto {v} (r + 1) }} else {{ r - b0(x) }} }}\ndef b0(x: i64): i64 {{ x }}\n")})
         # outer label, inner let of the same name; the label is used after the inner scope
         out.append({'name': f"reuse/label/let/{v}",
                     'src': prog(f"label {v} {{ (let {v}: i64 = b; {v} + 1) + (if a == 0 {{ goto {v} (5) }} else {{ a }}) }}")})
